@@ -883,7 +883,7 @@ func TestC07_Router(t *testing.T) {
 		// different names, via the request rules or via a selector-chosen (named)
 		// upstream — the way node()/sub() rules direct dae's own lookups. Servers
 		// answer a little late so the lookups are in flight together.
-		ng := rapid.IntRange(1, 3).Draw(t, "ngroups")
+		ng := rapid.IntRange(1, 2).Draw(t, "ngroups")
 		for g := 0; g < ng; g++ {
 			n := rapid.IntRange(2, 4).Draw(t, "gsize")
 			hosts := []string{genHost()}
@@ -909,7 +909,7 @@ func TestC07_Router(t *testing.T) {
 					}
 				}
 			}
-			c07ReplyDelay.Store(int64(rapid.SampledFrom([]time.Duration{5 * time.Millisecond, 20 * time.Millisecond, 40 * time.Millisecond}).Draw(t, "delay")))
+			c07ReplyDelay.Store(int64(rapid.SampledFrom([]time.Duration{3 * time.Millisecond, 10 * time.Millisecond, 25 * time.Millisecond}).Draw(t, "delay")))
 			gate := make(chan struct{})
 			var wg sync.WaitGroup
 			for _, l := range group {
